@@ -21,7 +21,9 @@ CONSTANTS Keys,          \* keys used by operations
           Fam,           \* enabled operation families (set of strings)
           MaxOps,        \* history length bound
           Collide,       \* TRUE: all keys share one bucket file (SHA-1 collision configuration)
-          ExportAt       \* history length at which behaviours are printed (0: never)
+          ExportAt,      \* history length at which behaviours are printed (0: never)
+          MultiSri       \* TRUE: declared integrities are multi-hash values whose strongest
+                         \* algorithm differs from the writer's (the known finding of C08/C02)
 
 VARIABLES absmap,        \* ghost: key -> Option(entry): the map the log-structured index refines
           pub,           \* ghost: addresses published by a successful or rejected commit
@@ -44,8 +46,15 @@ H(a, d) == [a |-> a, d |-> d]
 SizeChoices(d) == { <<>>, <<MCLenOf(d)>>, <<MCLenOf(d) + 1>> } \cup
                   (IF MCLenOf(d) > 0 THEN { <<MCLenOf(d) - 1>> } ELSE {})
 \* declared integrity: none, right, wrong digest, other algorithm only, multi containing right
-SriChoices(a, d) == { <<>>, <<H(a, d)>>, <<H(a, "bogus")>> }
-                    \cup { <<H(b, d)>> : b \in Algos \ {a} }
+Rank(a) == CASE a = "sha512" -> 0 [] a = "sha384" -> 1 [] a = "sha256" -> 2 [] a = "sha1" -> 3 [] OTHER -> 4
+SriChoices(a, d) ==
+    IF MultiSri
+    THEN \* the right hash preceded by a hash of a stronger algorithm (ssri sorts strongest first)
+         { <<H(b, d), H(a, d)>> : b \in { x \in Algos : Rank(x) < Rank(a) } }
+    ELSE { <<>>, <<H(a, d)>>, <<H(a, "bogus")>> }
+         \cup { <<H(b, d)>> : b \in Algos \ {a} }
+         \* multi-hash containing the right one, the writer's algorithm being the strongest
+         \cup { <<H(a, d), H(b, d)>> : b \in { x \in Algos : Rank(x) > Rank(a) } }
 OptsFor(a, d) ==
     [size : SizeChoices(d), sri : SriChoices(a, d), time : {"DEFAULT"} \cup Times,
      meta : {"DEFAULT"} \cup Metas, raw : {"DEFAULT"}]
@@ -233,6 +242,15 @@ CommitVerdict ==
            /\ (good_sri /\ good_size) => res'.ok
            /\ ~good_sri => (~res'.ok /\ res'.e = "Integrity")
            /\ (good_sri /\ ~good_size) => (~res'.ok /\ res'.e = "SizeMismatch")
+      ]_mvars
+
+\* C02 / C08: a keyed commit that reported success left an entry whose content is there
+CommittedReadable ==
+    [][ LET op == LastOp IN
+        (op.op = "w_commit" /\ res'.ok /\ hd[op.h].key # <<>>) =>
+           LET e == LookupB(buckets', hd[op.h].key[1]) IN
+           /\ e # <<>>
+           /\ BytesIn(store', ext', Addr(e[1].sri)) = op.fed
       ]_mvars
 
 \* C02: what a successful write stored is what reads by key and by address return
